@@ -142,6 +142,15 @@ def install(ex, py, L, rtype):
     def call(e, ob, args, kw):
         items = [simp(e.mem.load(simp(args) + 24 + 8 * i, 8)) for i in range(simp(e.mem.load(simp(args) + 16, 8)))]
         fn.calls.append(items)
+        # what a cdata argument shows to the Python function *during* the call (the C caller's copy may be a local)
+        snap = {}
+        for k_, it in enumerate(items):
+            inf = py.objs.get(it)
+            if inf is not None and str(inf.get('kind', '')).startswith('new:'):
+                d_ = simp(e.mem.load(it + 24, 8))
+                if is_c(d_) and e.mem.region_of(d_) is not None and e.mem.region_of(d_).base + e.mem.region_of(d_).size - d_ >= 8:
+                    snap[k_] = bv(e.mem.load(d_, 8), 64)
+        fn.snapshots = snap
         return fn.result_object()
 
     def call_objargs(e, ob, *a):
@@ -253,6 +262,11 @@ def check_args(chk, ex, py, label, fn, argtypes, argbits, inputs, replay=None):
         info = py.info(fn.calls[0][i])
         if kind == 'aggr':
             obj = fn.calls[0][i]
+            if argbits[i][1] == 'by-value':
+                seen = getattr(fn, 'snapshots', {}).get(i)
+                okk = seen is not None and z3.And(bv(py.ex.mem.load(obj + 16, 8), 64) == argbits[i][0], seen == argbits[i][2])
+                hutil.discharge(chk, ex, label + ':argument-%d-(%s)-shows-the-caller\'s-bytes' % (i, t), okk, inputs, replay=replay)
+                continue
             okk = (info['kind'].startswith('new:') or info['kind'] == 'cdata') and z3.And(bv(py.ex.mem.load(obj + 16, 8), 64) == argbits[i][0],
                                                                    bv(py.ex.mem.load(obj + 24, 8), 64) == argbits[i][1])
             hutil.discharge(chk, ex, label + ':argument-%d-(%s)-is-a-cdata-of-that-type-at-the-caller\'s-copy' % (i, t), okk, inputs, replay=replay)
@@ -436,7 +450,8 @@ def invoke_worker(args):
 
 GEN_SIGS = [('ep_%d' % i, t, [t]) for i, (t, s, sg) in enumerate(INTS)] + [
     ('ep_d', 'double', ['double']), ('ep_f', 'float', ['float']),
-    ('ep_mix', 'short', ['unsigned char', 'long', 'double']), ('ep_none', 'unsigned int', [])]
+    ('ep_mix', 'short', ['unsigned char', 'long', 'double']), ('ep_none', 'unsigned int', []),
+    ('ep_su', 'int', ['struct S', 'union U', 'int'])]
 _gen = None
 
 
@@ -445,14 +460,15 @@ def generated_module():
     if _gen is not None:
         return _gen
     sd = common.scratch_dir()
-    cdef = ['extern "Python" %s %s(%s);' % (r, n, ', '.join(a) or 'void') for n, r, a in GEN_SIGS]
+    cdef = ['struct S { int a; int b; }; union U { long long i; char c[8]; };']
+    cdef += ['extern "Python" %s %s(%s);' % (r, n, ', '.join(a) or 'void') for n, r, a in GEN_SIGS]
     code = '''
 import sys
 sys.path.insert(0, %r)
 import cffi
 ffi = cffi.FFI()
 ffi.cdef(%r)
-ffi.set_source('_verif_c14', '')
+ffi.set_source('_verif_c14', 'struct S { int a; int b; }; union U { long long i; char c[8]; };')
 ffi.emit_c_code(%r)
 ''' % (os.path.join(common.REPO, 'src'), '\n'.join(cdef), os.path.join(sd, '_verif_c14.c'))
     r = subprocess.run(['/venv/bin/python', '-c', code], stdout=subprocess.PIPE, stderr=subprocess.STDOUT)
@@ -515,7 +531,7 @@ def externpy_worker(args):
         for i, t in enumerate(argtypes):
             k, s, g_ = TYPES[t]
             b = z3.BitVec('arg%d' % i, 8 * s)
-            argbits.append(b)
+            argbits.append(b if k != 'aggr' else (acts[i], 'by-value', b))
             inputs['arg%d' % i] = b
             cargs.append(b)
         r = ex.call(fname, cargs)
